@@ -44,6 +44,10 @@ VALUES = [0, 1, 5, -3, True, False, 2.5, 5.0, 5.0005, 5.002, 4.9995, float('nan'
           Point(1, 2.0), Point(1, 3.0), Point(1, 2.0004), [Point(1, 2.0)], [Point(1, 3.0)],
           # objects of an ordinary class with a docstring and a string constant
           Dog('rex'), Dog('tom'), [Dog('rex')],
+          # tuples of two elements of different types, in both orders
+          (1, 'a'), ('a', 1),
+          # infinities and an int beyond the range of floats
+          float('inf'), float('-inf'), 10 ** 400,
           b'abc', b'ABC', b'a,b.c!', b'', [b'abc'], {'k': b'ABC'}, (b'abc', 'abc')]
 # pairs that are always run in BOTH argument orders (also in the quick tier)
 BOTH_ORDERS = [({0.0, 0.0005}, {0.0004, 0.002}), (frozenset({0.0, 0.0005}), frozenset({0.0004, 0.002})), ([{0.0, 0.0005}], [{0.0004, 0.002}]),
